@@ -1,5 +1,6 @@
 #!/bin/bash
 # usage: tools/mutant.sh <patch.diff> <ID> [quick|thorough] [extra env...]
+# VERIF_CHECK_DIR=<copy of /verif> runs that copy's check instead (to try changes to the machinery without touching /verif).
 # Applies a patch to a scratch worktree of /repo under /var/tmp, runs ./check <ID> against it, removes the worktree.
 set -u
 PATCH="$(cd "$(dirname "$1")" && pwd)/$(basename "$1")"; ID="$2"; TIER="${3:-quick}"
@@ -7,7 +8,8 @@ W=$(mktemp -d /var/tmp/mut.XXXXXX)
 git -C /repo worktree add -q --detach "$W" HEAD || exit 2
 if ! git -C "$W" apply "$PATCH"; then echo "PATCH DOES NOT APPLY"; git -C /repo worktree remove --force "$W"; exit 2; fi
 KEY=$(printf '%s' "$W" | sha256sum | cut -c1-10)
-VERIF_REPO="$W" timeout 3600 /verif/check "$ID" "$TIER"; rc=$?
+V="${VERIF_CHECK_DIR:-/verif}"
+VERIF_REPO="$W" timeout 3600 "$V/check" "$ID" "$TIER"; rc=$?
 echo "MUTANT RESULT rc=$rc patch=$1 id=$ID"
-git -C /repo worktree remove --force "$W"; rm -rf "/verif/.build/$KEY" /verif/replays/*/*.json.mut 2>/dev/null
+git -C /repo worktree remove --force "$W"; rm -rf "$V/.build/$KEY" /verif/replays/*/*.json.mut 2>/dev/null
 exit $rc
